@@ -224,7 +224,8 @@ def r4(ctx, cfg):
         r0 = ret
         while r0[0] == "vp":
             r0 = r0[2]
-        data = r0[0] == "upd" and any(p == ("data",) and is_param_field(v, "resp", "data") for p, v in r0[2])
+        # `.data = resp.data` may come before or after the builder calls: anywhere in the chain that makes up the result
+        data = contains(ret, lambda x: x[0] == "upd" and any(p == ("data",) and is_param_field(v, "resp", "data") for p, v in x[2]))
         for name, ok in (("messages(through customize_msg)", msgs), ("events", evs), ("attributes", attrs), ("data", data)):
             ctx.ob(R, key, "carries-%s" % name, ok, "customize_response does not carry %s: %s" % (name, fmt(ret)[:200]), fn=f, sample=name)
 
